@@ -19,7 +19,7 @@ EXPLANATION = (
     "sub-buffer push(data) ≺ seqP[idx] := pw + mask + 1, and `return true` only after it; R30.2 pop: read pr ≺ idx ≺ read seqC[idx] ≺ "
     "(pr == seq) ≺ [seqP[idx] <= seq → return false] ≺ CAS(preadC, pr+1, pr) ≺ sub-buffer pop ≺ seqC[idx] := pr + mask + 1; R30.3 init: "
     "seqP[i] = seqC[i] = i, preadP = preadC = 0, mask = nqueues - 1 with nqueues a power of two; R30.4 wrapper: try_push constructs a "
-    "copy in fresh memory and pushes its pointer; try_pop passes &target; release destroys and frees. NOT decided: interleavings.")
+    "copy in fresh memory and pushes its pointer; try_pop passes &target; release destroys and frees. R30.5 BufferPool::release resets a drained segment before publishing it to the producers' cache. NOT decided: interleavings.")
 
 Q = 'ff::uMPMC_Ptr_Queue::'
 
@@ -153,6 +153,22 @@ def run(ctx):
         ctx.saw(f)
         fr = [c for c in f.calls() if c.callee is not None and c.callee.get('n') in ('ff_free', 'free')]
         ctx.check(len(fr) == 1 and q.refers_to_decl(fr[0].args[0], f.param_ids[0]), 'R30.4', f.q + '#free', f.loc, 'release frees exactly the popped element')
+    # ---------------- R30.5 segment recycling (unbounded sub-queues): a drained segment is cleared BEFORE it is handed back to the producer side
+    br = prog.fns('ff::BufferPool::release')
+    ctx.need(len(br) >= 1, 'ff::BufferPool::release not found')
+    brf = br[0]
+    ctx.saw(brf)
+    bcfg = brf.cfg
+    rs_ = [c for c in brf.calls() if c.callee_qp == 'ff::SWSR_Ptr_Buffer::reset']
+    ps_ = [c for c in brf.calls() if c.callee_qp == 'ff::SWSR_Ptr_Buffer::push' and c.obj is not None and any(x.k == 'MemberExpr' and x.decl.get('n') == 'bufcache' for x in c.obj.walk())]
+    ctx.need(len(ps_) == 1, 'BufferPool::release: bufcache.push not found')
+    ok5 = len(rs_) >= 1 and any(bcfg.dominates(bcfg.vertex_of(r), bcfg.vertex_of(ps_[0])) for r in rs_) and \
+        not any(bcfg.vertex_of(r) in bcfg.reach_from(bcfg.vertex_of(ps_[0])) for r in rs_)
+    ctx.check(ok5, 'R30.5', 'ff::BufferPool::release#reset-before-publish', ps_[0].loc,
+              'the segment is reset before bufcache.push() makes it available to a producer, and not touched afterwards',
+              'the drained segment is pushed to the cache before it is reset (or reset again afterwards): a producer that takes it from the cache at once has its '
+              'first stores wiped by the consumer\'s reset — elements are lost and the sub-queue goes out of step')
+    ctx.floor('R30.5', 1)
     ctx.floor('R30.1', 10)
     ctx.floor('R30.2', 11)
     ctx.floor('R30.3', 4)
